@@ -46,18 +46,19 @@ def EXHAUSTIVE(tier):
 
 
 def thresholds(tier):
+    # <= 1/5 of what the unchanged tree gives (quick: 12 models / 118 fault points / 267 saves; thorough: 150 / 1408 / 3092)
     q = tier != "thorough"
     return {
-        "models": 8 if q else 100,
-        "fault_points": 30 if q else 400,
-        "faults_fired": 30 if q else 400,
-        "snapshots_compared": 40 if q else 500,
-        "roundtrips_checked": 2 if q else 20,
-        "refusals_checked": 1 if q else 4,
-        "rlimit_fired": 3 if q else 40,
-        "audit_events": 4 if q else 50,
-        "anchor:onnxscript._framework_apis.torch_2_5:save_model_with_external_data": 40 if q else 500,
-        "distinct_nontrivial": 6 if q else 40,
+        "models": 2 if q else 30,
+        "fault_points": 20 if q else 280,
+        "faults_fired": 24 if q else 320,
+        "snapshots_compared": 50 if q else 600,
+        "roundtrips_checked": 3 if q else 40,
+        "refusals_checked": 1 if q else 7,
+        "rlimit_fired": 20 if q else 230,
+        "audit_events": 4 if q else 60,
+        "anchor:onnxscript._framework_apis.torch_2_5:save_model_with_external_data": 50 if q else 600,
+        "distinct_nontrivial": 2 if q else 30,
     }
 
 
